@@ -227,6 +227,9 @@ def c18_task(n_targets):
         pretty = json.dumps(val, indent=2)
         rev = json.dumps({k: val[k] for k in reversed(list(val))}, indent=1)
         sers = [("compact", compact), ("pretty", pretty), ("reversed-keys", rev), ("crlf", pretty.replace("\n", "\r\n")), ("tabs", json.dumps(val, indent="\t"))]
+        # every JSON whitespace character as line ending / separator padding (CR alone is legal whitespace)
+        sers.append(("cr-only-line-endings", pretty.replace("\n", "\r")))
+        sers.append(("cr-and-tab-separators", json.dumps(val, separators=(",\r\t", ":\r"))))
         sers.append(("deep-sorted-keys", json.dumps(deep_order(val, "sorted"), indent=1)))
         sers.append(("deep-reverse-sorted-keys", json.dumps(deep_order(val, "reverse-sorted"), separators=(",", ":"))))
         sers.append(("deep-reversed-keys", json.dumps(deep_order(val, "reversed"), indent=3)))
